@@ -57,6 +57,7 @@ type nestFacts struct {
 	aborted       int
 	scripts       int
 	addThenRemove bool
+	overwroteMulti int
 }
 
 func (f nestFacts) nontrivial() bool { return f.maxSlabs >= 3 && f.removedSlabby >= 1 }
@@ -94,6 +95,9 @@ func runNestHistory(hist storgen.NestHistory, eng host.Engine, hooks *execHooks)
 		facts.removedSlabby += f.RemovedSlabby
 		facts.removals += f.Removals
 		facts.moves += f.Moves
+		if commits {
+			facts.overwroteMulti += f.OverwroteMultiSlab
+		}
 		facts.addThenRemove = facts.addThenRemove || (commits && f.AddThenRemove)
 		info := execInfo{idx: i, src: e.Source(), script: e.Script, expectFail: e.Inject != nil, commits: commits,
 			mutatedFirst: (e.Inject == nil && len(e.Ops) > 0) || (e.Inject != nil && (e.Inject.Mutate != "" || e.Inject.Kind == "mismatch-load" || !e.Inject.InBody() || e.Inject.Pos > 0))}
@@ -226,7 +230,7 @@ func TestC23(t *testing.T) {
 		"account storage root is loaded, Storage.CheckHealth() must pass, every stored value is rendered, the number of slab registers must equal the slabs reachable from the roots "+
 		"(independent walk), and a ledger-only script must describe the stored state exactly as the Go model does. Histories: (60%) removal-heavy nest histories over resources "+
 		"with arrays/big strings/dictionaries of arrays/struct fields/optional fields/nested resources in dictionary, array and optional/attachments, moved between accounts, destroyed, "+
-		"overwritten, mutated through references, plus contract add/update/remove; (20%) the C22 typed-map histories; (20%) the C20 container histories; atree validation is off so an unhealthy "+
+		"overwritten (field assignment, index assignment into [[Int]] / [[Int]?] / [[[Int]]] and key assignment into {String: {Int: Int}} over old values of up to 1000 elements spanning several slabs, resource array/dictionary elements replaced), mutated through references, plus contract add/update/remove; (20%) the C22 typed-map histories; (20%) the C20 container histories; atree validation is off so an unhealthy "+
 		"commit is observed by the check rather than by the runtime. Non-trivial: the ledger reached ≥ 3 slab registers and the history removed/overwrote/moved ≥ 1 non-inlined nested container. "+
 		"Distinct by history. Both engines.")
 	if rec.Known("FG1") {
@@ -290,6 +294,7 @@ func TestC23(t *testing.T) {
 			rec.ClassN("nest/aborted-tx", int64(facts.aborted))
 			rec.ClassN("nest/removed-noninlined-container", int64(facts.removedSlabby))
 			rec.ClassN("nest/moves", int64(facts.moves))
+			rec.ClassN("nest/overwrote-multislab-container-by-index-or-key", int64(facts.overwroteMulti))
 			if facts.maxSlabs >= 10 {
 				rec.Class("nest/ledger>=10-slabs")
 			}
